@@ -143,8 +143,16 @@ class Setup:
                 pass
 
 
+def line_files():
+    import mido.ports
+    import mido.parser
+    import mido.tokenizer
+    import mido.backends._parser_queue as pq
+    return [m.__file__ for m in (mido.ports, mido.parser, mido.tokenizer, pq)]
+
+
 def run_program(kind, initq, prog, schedule=None, rng=None, policy='random',
-                budget=400, labels=None):
+                budget=400, labels=None, line_level=False):
     """prog: list (thread index 0..) of lists of ops {'op':..., 'm':..., 'lane':...}.
     schedule: list of thread ids (1-based) or None.
     Returns dict(results, events, final_q, divergences, hung)."""
@@ -157,7 +165,8 @@ def run_program(kind, initq, prog, schedule=None, rng=None, policy='random',
         for op in ops:
             if op['op'] == 'send':
                 sender_of[op['m']] = ti + 1
-    sc = S.Scheduler(budget=budget)
+    sc = S.Scheduler(budget=budget * (8 if line_level else 1),
+                     trace_files=line_files() if line_level else None)
     saved_random = mp.random
     mp.random = random.Random(rng.randrange(1 << 30))
     results = {}
@@ -272,13 +281,15 @@ def run_program(kind, initq, prog, schedule=None, rng=None, policy='random',
                 results[t] = st.result if st.done else None
             # when every thread has finished, whatever is still in the port (queue,
             # device wire, member ports) is drained: nothing may be lost or doubled
+            final_q = setup.final_queue(sender_of) if kind != 'pqueue' else None
             drained = None
             if not hung:
                 try:
                     drained = [msg_id(m, sender_of) for m in setup.recvp.iter_pending()]
                 except Exception as e:
                     drained = ['raised ' + type(e).__name__]
-            final_q = setup.final_queue(sender_of)
+            if final_q is None:
+                final_q = setup.final_queue(sender_of)
             lanes0 = [[m for m in initq]] + [[] for _ in range(setup.nlanes - 1)]
             setup.close()
     finally:
